@@ -73,9 +73,15 @@ PopReturns == closed \/ ~Empty
 (* ... and hands out the front item: PopAnyway and the sync queue drain a closed queue *)
 PopTakes(a) == ~Empty /\ (a.any \/ ~closed \/ Deviation = "pop_drains")
 
+(* Items are opaque values: an add carries the item id v (fresh, the spec's bookkeeping) and the    *)
+(* value class val the harness logs for it (v itself for a value unique to the item; the id of the *)
+(* first owner when the same value is added again; a negative class for nil / zero values).  What  *)
+(* a pop hands out is logged - and compared - by value class.                                     *)
+ValOf(x) == LET i == CHOOSE i \in 1..Len(hist) : hist[i].v = x IN hist[i].val
+
 (* AddAnyway (op "addw") is the ordinary add that sleeps and retries while the lane is full: it is  *)
 (* the same action, enabled only when it returns (lane not full, or queue closed)                *)
-AsAdd(a) == [op |-> "add", lane |-> a.lane, prior |-> FALSE, v |-> a.v]
+AsAdd(a) == [op |-> "add", lane |-> a.lane, prior |-> FALSE, v |-> a.v, val |-> a.val]
 Norm(a)  == IF a.op = "addw" THEN AsAdd(a) ELSE a
 IsAdd(a) == a.op \in {"add", "addw"}
 
@@ -90,9 +96,9 @@ Replies(a) ==
   CASE a.op = "add"  -> AddReplies(a)
     [] a.op = "addw" -> AddReplies(AsAdd(a))
     [] a.op = "pop" ->
-         IF PopTakes(a) THEN {R("item", Front)} ELSE {R("closed", 0)}
+         IF PopTakes(a) THEN {R("item", ValOf(Front))} ELSE {R("closed", 0)}
     [] a.op = "trypop" ->
-         IF ~Empty THEN {R("item", Front)} ELSE IF closed THEN {R("closed", 0)} ELSE {R("empty", 0)}
+         IF ~Empty THEN {R("item", ValOf(Front))} ELSE IF closed THEN {R("closed", 0)} ELSE {R("empty", 0)}
     [] a.op = "close" -> {Ok}
     [] a.op = "tryclose" ->
          \* succeeds exactly when empty; already closed with residue: the property is silent
@@ -114,7 +120,7 @@ Replies(a) ==
 DoAdd(a) ==
          /\ seq' = seq + 1
          /\ IF Accepts(a)
-            THEN /\ hist' = Append(hist, [v |-> a.v, lane |-> a.lane, prior |-> a.prior])
+            THEN /\ hist' = Append(hist, [v |-> a.v, lane |-> a.lane, prior |-> a.prior, val |-> a.val])
                  /\ IF a.lane = "ctrl"
                     THEN ctrl' = (IF a.prior THEN <<a.v>> \o ctrl ELSE Append(ctrl, a.v)) /\ UNCHANGED req
                     ELSE req' = (IF a.prior THEN <<a.v>> \o req ELSE Append(req, a.v)) /\ UNCHANGED ctrl
@@ -176,10 +182,10 @@ NoArg(k) ==
 
 (* the calls of the public API of the kind; item ids are fresh: 1, 2, 3 ... *)
 ActsOf(k) ==
-       [op : {"add"}, lane : Lanes(k), prior : IF k = "syncq" THEN {FALSE} ELSE BOOLEAN, v : {seq + 1}]
+       [op : {"add"}, lane : Lanes(k), prior : IF k = "syncq" THEN {FALSE} ELSE BOOLEAN, v : {seq + 1}, val : {seq + 1}]
   \cup [op : {"pop"}, any : IF k = "syncq" THEN {TRUE} ELSE BOOLEAN]
   \cup [op : NoArg(k)]
-  \cup [op : IF k = "syncq" THEN {} ELSE {"addw"}, lane : Lanes(k), v : {seq + 1}]
+  \cup [op : IF k = "syncq" THEN {} ELSE {"addw"}, lane : Lanes(k), v : {seq + 1}, val : {seq + 1}]
   \cup [op : CASE k \in {"mux", "mq"} -> {"waitclose"} [] OTHER -> {}, bg : BOOLEAN]
   \cup [op : IF k = "mq" THEN {"waitclear"} ELSE {}, bg : BOOLEAN]
 
@@ -243,7 +249,7 @@ Capacity ==
           /\ (r.st = "closed") => (closed /\ kind # "syncq")
           /\ (closed /\ kind # "syncq") => r.st \in {"closed", "full"}
           /\ (hist' # hist) <=> (r.st = "ok" /\ ~closed)
-          /\ (hist' # hist) => hist' = Append(hist, [v |-> a.v, lane |-> a.lane, prior |-> a.prior])
+          /\ (hist' # hist) => hist' = Append(hist, [v |-> a.v, lane |-> a.lane, prior |-> a.prior, val |-> a.val])
     ]_allqvars
 
 (* close is final; a closed queue accepts nothing; Pop fails on a closed     *)
